@@ -484,7 +484,7 @@ class Execution:
 
 
 class C07Writer(core.Check):
-    id = 'C07'
+    id = 'C07F'
     level = 'fault_enumeration'
     world = 'F'
     chunk = 25
@@ -498,7 +498,7 @@ class C07Writer(core.Check):
                    'builtin open() on a shadow file is the reference for handle semantics',
                    'thread schedules are not simulated (martinize2 is single threaded)']
     rule = ('scenario = pre-existing files (incl. backups with gaps) + 1-8 deferred open/write/read/seek/close/chdir ops '
-            '+ finalise/discard rounds, drawn from sub_rng(VERIF_SEED, C07, run); each scenario is executed fault-free and '
+            '+ finalise/discard rounds, drawn from sub_rng(VERIF_SEED, C07F, run); each scenario is executed fault-free and '
             'then once per crash point of every finalisation (complete per history), per torn-write cut and per sampled '
             'I/O-error placement. distinct = distinct scenario digest; non-trivial = at least one finalisation that '
             'touched a pre-existing file or fired at least one fault')
